@@ -141,6 +141,30 @@ C12_Step ==
                 [] OTHER -> FALSE)
 P_C12 == [][C12_Step]_wvars
 
+\* The same property on a whole stream, independent of how the server reads (a server may read ahead into later
+\* frames before it answers the current one, so a response cannot be attributed to an item by observation):
+\* the number of response frames and the end status of serving the stream `items`.  Outcomes = every pair the
+\* statement allows: a well-formed frame is answered once and service goes on (a pending wait after its release);
+\* a malformed frame is answered once and service goes on, or service ends with an error (at most one response);
+\* oversize: ends with an error, no response; truncated prefix / body: ends with an error (at most one response);
+\* clean EOF: ends without error.  Once the underlying agent is gone (a "ufail" item was passed) later forwarded
+\* requests cannot be answered by it any more: they count as malformed.
+RECURSIVE Outcomes(_, _, _, _)
+Outcomes(items, i, n, dead) ==
+  IF i > Len(items) THEN {<<n, "ok">>}          \* the stream simply ends: clean EOF
+  ELSE LET it == items[i] IN
+    CASE it.k = "eof"      -> {<<n, "ok">>}
+      [] it.k = "oversize" -> {<<n, "err">>}
+      [] it.k \in {"tprefix", "tbody"} -> {<<n, "err">>, <<n + 1, "err">>}
+      [] it.k = "frame" ->
+           IF WellFormed(it) /\ ~(dead /\ it.code \in AllCodes /\ DispatchOf[it.code] = "fwd")
+           THEN Outcomes(items, i + 1, n + 1, dead)
+           ELSE Outcomes(items, i + 1, n + 1, dead \/ it.aux = "ufail") \cup {<<n, "err">>, <<n + 1, "err">>}
+      [] OTHER -> {}
+C12_Stream(items, nrep, st, pan, big) == ~pan /\ ~big /\ <<nrep, st>> \in Outcomes(items, 1, 0, FALSE)
+\* the design's runs end inside the allowed outcomes of their stream
+Inv_Stream == (status \in {"ok", "err"}) => C12_Stream(stream, Len(out), status, FALSE, FALSE)
+
 \* state invariants of the wire design
 WfIdx == {i \in 1..(pos - 1) : WellFormed(stream[i]) /\ ~(status = "waiting" /\ i = pos - 1)}
 Inv_NoCrash == status # "crashed"
